@@ -167,3 +167,87 @@ pub fn fmt_st(s: &[u32]) -> String {
         s.iter().map(|m| format!("r{}a{}", (m >> 16).wrapping_sub(1), m & 0xffff)).collect();
     format!("[{}]", v.join(" "))
 }
+
+// ---------------------------------------------------------------------------------------------
+// pipeline view
+
+use std::collections::HashMap;
+
+/// What the reducer context did, read off the scripted reducers' events.
+pub struct Pipe {
+    /// actions in reduce order (first reducer call of each action; a vetoed action is absent)
+    pub order: Vec<u32>,
+    /// state produced by the action's last reducer call
+    pub after: HashMap<u32, StV>,
+    /// log index of the action's last reducer call
+    pub last_reduce_idx: HashMap<u32, usize>,
+    /// answer of the last reducer that ran for the action: true = Dispatch (notify)
+    pub notifies: HashMap<u32, bool>,
+    /// all reducers of the chain gave the same answer for this action
+    pub uniform: HashMap<u32, bool>,
+    pub reducer_task: Option<u32>,
+}
+
+pub fn pipe(r: &ExecResult) -> Pipe {
+    let mut p = Pipe {
+        order: vec![],
+        after: HashMap::new(),
+        last_reduce_idx: HashMap::new(),
+        notifies: HashMap::new(),
+        uniform: HashMap::new(),
+        reducer_task: None,
+    };
+    for c in cbs_of(r, "reduce") {
+        if !p.order.contains(&c.act) {
+            p.order.push(c.act);
+            p.uniform.insert(c.act, true);
+        } else if p.notifies.get(&c.act) != Some(&(c.x == 0)) {
+            p.uniform.insert(c.act, false);
+        }
+        p.after.insert(c.act, c.out.clone());
+        p.last_reduce_idx.insert(c.act, c.i);
+        p.notifies.insert(c.act, c.x == 0);
+        p.reducer_task = Some(c.task);
+    }
+    p
+}
+
+impl Pipe {
+    /// the notification stream a subscriber registered for the whole run must see
+    pub fn expected_stream(&self) -> Vec<(u32, StV)> {
+        self.order
+            .iter()
+            .filter(|a| self.notifies[*a])
+            .map(|a| (*a, self.after[a].clone()))
+            .collect()
+    }
+}
+
+/// (log index, action, state) of every event of `kind` for component `comp`
+pub fn stream(r: &ExecResult, kind: &'static str, comp: u32) -> Vec<(usize, u32, StV)> {
+    cbs_of(r, kind).filter(|c| c.comp == comp).map(|c| (c.i, c.act, c.st.clone())).collect()
+}
+
+pub fn strip(s: &[(usize, u32, StV)]) -> Vec<(u32, StV)> {
+    s.iter().map(|x| (x.1, x.2.clone())).collect()
+}
+
+pub fn fmt_stream(s: &[(u32, StV)]) -> String {
+    let v: Vec<String> = s.iter().map(|(a, st)| format!("{}:{}", a, fmt_st(st))).collect();
+    v.join(", ")
+}
+
+/// is `sub` an in-order subsequence of `full`?
+pub fn is_subsequence<T: PartialEq>(sub: &[T], full: &[T]) -> bool {
+    let mut j = 0;
+    for x in full {
+        if j < sub.len() && sub[j] == *x {
+            j += 1;
+        }
+    }
+    j == sub.len()
+}
+
+pub fn timeout_before(r: &ExecResult, idx: usize) -> bool {
+    r.log.iter().take(idx.min(r.log.len())).any(|rec| matches!(rec.ev, Ev::TimeoutFired { .. }))
+}
